@@ -219,6 +219,12 @@ def gen_ops(rng, tier):
             L, R = ("T", a), _dur(rng, b, ym)             # reflected: timedelta op Duration
         if _ok(o, L, R):
             yield ("durop", o, L, R)
+        if rng.random() < 0.12 and 0 < abs(b) < VMAX:
+            # an absolute Interval (negating it leaves it unchanged) as either operand
+            W = ("V", abs(b), 1)
+            L2, R2 = (left(a), W) if rng.random() < 0.7 else (W, _durlike(rng, a))
+            if _ok(o, L2, R2):
+                yield ("durop", o, L2, R2)
     # mul by int / float, both orders
     for _ in range(25000 * n):
         a = _len(rng)
@@ -312,7 +318,8 @@ def corpus():
 # ------------------------------------------------------------------ wire
 
 def _w(o):
-    return " ".join(str(x) for x in o)
+    # ("V", v, 1) = an ABSOLUTE Interval built with its endpoints the wrong way round (what diff() returns): same length on the wire
+    return " ".join(str(x) for x in (o[:2] if o[0] == "V" else o))
 
 
 def exact_domain(op):
@@ -377,6 +384,8 @@ def build(o):
         return _H["Duration"](years=y, months=mo, weeks=w, days=d, hours=h, minutes=mi, seconds=s, milliseconds=ms,
                               microseconds=us)
     if k == "V":
+        if len(o) == 3:
+            return _H["Interval"](_BASE + timedelta(microseconds=o[1]), _BASE, absolute=True)
         return _H["Interval"](_BASE, _BASE + timedelta(microseconds=o[1]))
     if k == "T":
         return timedelta(microseconds=o[1])
